@@ -38,20 +38,40 @@ const docSDL = `type Item {
 	b: Boolean
 	t: DateTime
 	zz_long_field_name: String
+	tags: [String!]
+	nums: [Int!]
+	flags: [Boolean!]
+	onums: [Int]
 }`
 
-var docFields = []string{"name", "title", "n", "m", "f", "b", "t", "zz_long_field_name"}
-var docKinds = map[string]string{"name": "s", "title": "s", "n": "i", "m": "i", "f": "f", "b": "b", "t": "t", "zz_long_field_name": "s"}
+var docFields = []string{"name", "title", "n", "m", "f", "b", "t", "zz_long_field_name", "tags", "nums", "flags", "onums"}
+var docKinds = map[string]string{"name": "s", "title": "s", "n": "i", "m": "i", "f": "f", "b": "b", "t": "t", "zz_long_field_name": "s",
+	"tags": "as", "nums": "ai", "flags": "ab", "onums": "oi"}
 
 type fval struct {
-	k string // n s i f b
+	k string // n s i f b, arrays: as ai ab, oi (elements may be nil)
 	s string
 	i int64 // int, or float numerator in eighths
 	b bool
+	// array elements; an element of an `oi` array with k == "n" is nil
+	arr []fval
 }
 
 func (v fval) tok() string {
 	switch v.k {
+	case "as", "ai", "ab":
+		var p []string
+		for _, e := range v.arr {
+			t := e.tok()[1:]
+			if t == "" {
+				t = "-" // the empty string (an empty list has no elements at all)
+			}
+			p = append(p, t)
+		}
+		return v.k + strings.Join(p, ",")
+	case "oi":
+		// only the length reaches the model: the contents are not part of the serialisation
+		return "oi" + strconv.Itoa(len(v.arr))
 	case "n":
 		return "n"
 	case "s", "t":
@@ -73,6 +93,12 @@ func (v fval) tok() string {
 
 func (v fval) json() string {
 	switch v.k {
+	case "as", "ai", "ab", "oi":
+		var p []string
+		for _, e := range v.arr {
+			p = append(p, e.json())
+		}
+		return "[" + strings.Join(p, ", ") + "]"
 	case "n":
 		return "null"
 	case "s", "t":
@@ -89,6 +115,12 @@ func (v fval) json() string {
 
 func (v fval) goval() any {
 	switch v.k {
+	case "as", "ai", "ab", "oi":
+		xs := []any{}
+		for _, e := range v.arr {
+			xs = append(xs, e.goval())
+		}
+		return xs
 	case "t":
 		tm, err := time.Parse(time.RFC3339Nano, v.s)
 		must(err)
@@ -108,6 +140,17 @@ func (v fval) goval() any {
 
 func genFval(r *vc.Rng, kind string) fval {
 	switch kind {
+	case "as", "ai", "ab", "oi":
+		v := fval{k: kind}
+		n := []int{0, 1, 2, 3, 23, 24, 30}[r.Intn(7)]
+		for i := 0; i < n; i++ {
+			e := genFval(r, map[string]string{"as": "s", "ai": "i", "ab": "b", "oi": "i"}[kind])
+			if kind == "oi" && r.Chance(1, 4) {
+				e = fval{k: "n"}
+			}
+			v.arr = append(v.arr, e)
+		}
+		return v
 	case "t":
 		return fval{k: "t", s: []string{"2021-03-04T05:06:07Z", "2021-03-04T05:06:07.123456789Z", "2021-03-04T05:06:07+02:00", "1999-12-31T23:59:59.5-05:00", "2030-01-01T00:00:00.000001+09:30"}[r.Intn(5)]}
 	case "s":
@@ -203,6 +246,11 @@ func docCase(ctx context.Context, out *vc.Out, r *vc.Rng, nodes []*vnode.Node, c
 			v := content[k]
 			if v.k == "i" && (v.i > 2147483647 || v.i < -2147483648) {
 				skip = true // GraphQL Int literals are 32-bit
+			}
+			for _, e := range v.arr {
+				if e.k == "i" && (e.i > 2147483647 || e.i < -2147483648) {
+					skip = true
+				}
 			}
 			if v.k == "n" && ni == 1 {
 				continue
